@@ -58,6 +58,24 @@ Fixpoint dval_of (d : gdata) : Tmpl.Exec.dval :=
   | GPtr (Some d') => dval_of d'
   end.
 
+(* Map.True() of a struct-backed object is false when the struct is its type's zero value; the executor
+   model only knows objects by their entries.  Data holding a struct whose fields are all zero-like
+   (a superset: nil and empty slices are not told apart here) is declined. *)
+Definition zero_like (d : gdata) : bool :=
+  match d with
+  | GNil | GBool false | GStr [] | GArr [] | GMap [] | GPtr None => true
+  | GInt z => Z.eqb z 0
+  | _ => false
+  end.
+Fixpoint has_zero_struct (d : gdata) : bool :=
+  match d with
+  | GArr l => existsb has_zero_struct l
+  | GMap kvs => existsb (fun kv => has_zero_struct (snd kv)) kvs
+  | GStruct fs => forallb (fun kv => zero_like (snd kv)) fs || existsb (fun kv => has_zero_struct (snd kv)) fs
+  | GPtr (Some d') => has_zero_struct d'
+  | _ => false
+  end.
+
 Definition std_funcs : list bytes := [B "Math"; B "JSON"; B "Object"; B "stripTags"; B "parseInt"].
 
 (* ---- `x[i] = e` ------------------------------------------------------------------------------
@@ -201,11 +219,12 @@ Fixpoint fold_clash (seen l : list bytes) : bool :=
     else fold_clash (if mem x seen then seen else x :: seen) r
   end.
 
-(* Some (Some out) | Some None = execution error | None = the model declines *)
+(* Some (Some out) | None = the model declines (Some None = execution error: only Models/Purity.v shapes) *)
 Definition exec_model (nodes : list pnode) (d : gdata) : option (option bytes) :=
   if fold_clash [] (flat_map node_names nodes ++ value_names d) then None
+  else if has_zero_struct d then None
   else if existsb (any_node has_idx_assign) nodes && existsb (any_node text_leads_ws) nodes then None
-  else if negb (idx_ok [] nodes) then None
+  else if negb (idx_ok [B "global"] nodes) then None      (* $global is set before the template starts *)
   else
   match Pug.Compile.compile std_funcs false (map rw_node nodes) with
   | None => None
@@ -215,8 +234,9 @@ Definition exec_model (nodes : list pnode) (d : gdata) : option (option bytes) :
     | Some p =>
       match Tmpl.Exec.run_program p (dval_of d) with
       | OOk o => Some (Some o)
-      | OPanic => Some None
-      | OUnmod | OFuel => None
+      (* the model's panics are not used as predictions: e.g. Object.assign on an unset target panics in
+         Go only when the source has keys, in the model always *)
+      | OPanic | OUnmod | OFuel => None
       end
     end
   end.
